@@ -4,7 +4,7 @@
 From Coq Require Import List NArith Arith Bool.
 From MV Require Import Base.PyStr Base.Res Refs.RUtil Refs.Anchors Sect.Slug Sect.SlugTables Sect.SlugProofs
                        Sect.SlugEdge Sect.SlugIds Sect.SlugResolve Gen.PyUnicodeSlug Sect.SlugPy
-                       Sect.SlugSrcLib Gen.SlugSrc Sect.SlugSrcProofs.
+                       Sect.SlugSrcLib Gen.SlugSrc Sect.SlugSrcProofs Gen.AnchorsCliSrc Sect.AnchorsCliProofs.
 Import ListNotations.
 Local Open Scope nat_scope.
 
@@ -218,6 +218,23 @@ Theorem C10_plugin_unique_slug_src : forall slug slugs,
   exists u, unique_slug_src slug slugs = Ok (u, u :: slugs) /\ SuffixRule slug slugs u.
 Proof. exact unique_slug_src_rule. Qed.
 Print Assumptions C10_plugin_unique_slug_src.
+
+(* the CLI half regenerated: anchors_plugin's selected_levels, the _anchor_func loop (plug-in) and
+   print_anchors' arguments and level filter (cli.py) = the model's print_anchors *)
+Theorem C10_print_anchors_src : forall level slug_func hs,
+  print_anchors_src level slug_func hs = print_anchors level slug_func hs.
+Proof. exact print_anchors_src_eq. Qed.
+Print Assumptions C10_print_anchors_src.
+
+(* renderer = myst-anchors, both sides regenerated from the sources (same guard as C10_matches_cli_partial) *)
+Theorem C10_matches_cli_src_partial : forall depth hs, Forall (fun h => 1 <= h_level h) hs ->
+  Forall edge_space_free hs ->
+  print_anchors_src depth py_plugin_slugify hs =
+  Ok (rendered_anchors hs (fst (render_slugs_src depth py_default_slugify None hs))).
+Proof.
+  intros depth hs H1 H2. rewrite print_anchors_src_eq, render_slugs_src_eq. apply py_matches_cli; auto.
+Qed.
+Print Assumptions C10_matches_cli_src_partial.
 
 (* ---- the code as it was before the repairs ---- *)
 
